@@ -10,6 +10,8 @@ import (
 	pkgErr "github.com/pkg/errors"
 
 	"verifharness/core"
+	"verifharness/obs"
+	"verifharness/sim"
 	"verifharness/gen"
 )
 
@@ -194,6 +196,44 @@ func runC14(c *core.Ctx) {
 			}
 		}
 	}
+	// the same comparisons on what the library builds when DECODING: after a hop through a process
+	// that knows none of the types, every layer is one of the library's opaque stand-ins
+	if c.Case%3 == 0 {
+		if p := core.Try(func() {
+			d := sim.Transfer(e, []sim.Proc{{Forget: sim.KeysOf(e)}})
+			if d == nil {
+				return
+			}
+			for _, r := range w.Refs {
+				c.Count("decoded-is-comparisons", 1)
+				if goErr.Is(d, r.Err) && !errors.Is(d, r.Err) {
+					c.Violate("decoded/std-is-not-implied", "on a decoded (opaque) chain the standard errors.Is holds and the library's does not", fmt.Sprintf("%s\nref %s", t, r.Origin))
+				}
+			}
+			for _, x := range stdWalk(d) {
+				c.Count("decoded-unwrap-comparisons", 1)
+				if _, has := x.(interface{ Unwrap() error }); has && !sameErr(goErr.Unwrap(x), errors.Unwrap(x)) {
+					c.Violate("decoded/unwrap", "Unwrap differs from the standard errors.Unwrap on a decoded layer", fmt.Sprintf("%s\n%T", t, x))
+				}
+				if _, multi := x.(interface{ Unwrap() []error }); multi && (goErr.Unwrap(x) != nil || errors.Unwrap(x) != nil) {
+					c.Violate("decoded/unwrap-multi", "Unwrap of a decoded multi-cause layer is not nil", fmt.Sprintf("%s\n%T", t, x))
+				}
+				root := x
+				for y := errors.UnwrapOnce(root); y != nil; y = errors.UnwrapOnce(root) {
+					root = y
+				}
+				if !sameErr(errors.UnwrapAll(x), root) || !sameErr(pkgErr.Cause(x), root) && isLibChain(x) {
+					c.Violate("decoded/root", "Cause / UnwrapAll / pkg/errors.Cause disagree on the root of a decoded chain", fmt.Sprintf("%s\n%T: root %T UnwrapAll %T pkg %T", t, x, root, errors.UnwrapAll(x), pkgErr.Cause(x)))
+				}
+			}
+			// a layer the standard walk does not reach is a layer the standard Is/As cannot see
+			if n, m := len(stdWalk(d)), len(obs.Nodes(d)); n != m {
+				c.Violate("decoded/std-walk", "the standard library's Unwrap walk does not reach every layer of a decoded chain", fmt.Sprintf("%s\n%d of %d layers", t, n, m))
+			}
+		}); p != nil {
+			c.Violate("decoded/panic", "panicked on a decoded chain", fmt.Sprintf("%s\n%v", t, p))
+		}
+	}
 	if pos > 0 && neg > 0 {
 		c.Nontrivial(t.Sig())
 	}
@@ -317,4 +357,14 @@ func isLibType(y error) bool {
 		t = t.Elem()
 	}
 	return strings.HasPrefix(t.PkgPath(), "github.com/cockroachdb/errors")
+}
+
+// isLibChain: every wrapper on the single-cause chain below x is a library type.
+func isLibChain(x error) bool {
+	for y := x; y != nil; y = errors.UnwrapOnce(y) {
+		if errors.UnwrapOnce(y) != nil && !isLibType(y) {
+			return false
+		}
+	}
+	return true
 }
